@@ -53,8 +53,9 @@ type frameArg struct {
 }
 
 type frameChecker struct {
-	w    *World
-	sums map[string]*frameSummary
+	w         *World
+	sums      map[string]*frameSummary
+	implCache map[string][]string
 }
 
 // stdlib callees: which parameters (receiver = -1) they write through.
@@ -64,7 +65,37 @@ var stdlibMods = map[string][]int{
 	"bytes.Buffer.Write": {-1}, "bytes.Buffer.WriteByte": {-1}, "bytes.Buffer.WriteRune": {-1}, "bytes.Buffer.WriteString": {-1}, "bytes.Buffer.Reset": {-1},
 	"strings.Builder.Write": {-1}, "strings.Builder.WriteByte": {-1}, "strings.Builder.WriteRune": {-1}, "strings.Builder.WriteString": {-1},
 	"io.Writer.Write": {-1}, "io.Reader.Read": {-1, 0}, "fmt.Fprintf": {0}, "fmt.Fprint": {0}, "fmt.Fprintln": {0},
-	"encoding/json.Encoder.Encode": {-1}, "hash.Hash.Write": {-1}, "hash/fnv.sum64a.Write": {-1},
+	"encoding/json.Encoder.Encode": {-1}, "hash.Hash.Write": {-1}, "hash/fnv.sum64a.Write": {-1}, "encoding/binary.Write": {0},
+	"slices.CompactFunc": {0}, "slices.Compact": {0}, "slices.Delete": {0}, "slices.DeleteFunc": {0}, "slices.Insert": {0}, "sync.Map.Store": {-1}, "sync.Map.Delete": {-1}, "sync.Map.LoadOrStore": {-1},
+}
+
+// pureForeign: standard-library callees known not to write through their
+// arguments (read-only packages and individual functions).
+func pureForeign(key string) bool {
+	if strings.HasPrefix(key, "?") {
+		// call through a function value (closure, callback): the value's body is
+		// analysed where it is defined; user callbacks are outside the claim
+		return true
+	}
+	for _, p := range []string{"fmt.S", "fmt.Errorf", "strconv.", "strings.", "errors.", "unicode.", "unicode/utf8.", "math.", "math/bits.", "time.", "net/netip.",
+		"cmp.", "context.", "iter.", "reflect.", "regexp.", "path.", "os.", "sync/atomic.Load"} {
+		if strings.HasPrefix(key, p) {
+			return !strings.HasPrefix(key, "strings.Builder.") || false
+		}
+	}
+	switch key {
+	case "slices.Clone", "slices.Contains", "slices.ContainsFunc", "slices.Index", "slices.IndexFunc", "slices.Equal", "slices.EqualFunc", "slices.Collect",
+		"slices.Concat", "slices.Values", "slices.All", "slices.Max", "slices.Min", "slices.BinarySearch", "slices.BinarySearchFunc", "slices.Compare", "slices.Sorted",
+		"maps.Clone", "maps.Keys", "maps.Values", "maps.All", "maps.Collect", "maps.Equal",
+		"bytes.Equal", "bytes.Compare", "bytes.HasPrefix", "bytes.HasSuffix", "bytes.Index", "bytes.IndexByte", "bytes.Join", "bytes.Contains", "bytes.Clone",
+		"bytes.Buffer.Bytes", "bytes.Buffer.String", "bytes.Buffer.Len", "bytes.NewBuffer", "bytes.NewReader", "bytes.TrimSpace",
+		"encoding/json.Marshal", "encoding/json.MarshalIndent", "encoding/json.Valid", "encoding/json.NewDecoder", "encoding/json.NewEncoder",
+		"hash/fnv.New64", "hash/fnv.New64a", "hash.Hash64.Sum64", "hash.Hash.Sum", "sort.Search", "sort.SearchStrings",
+		"sync.Map.Load", "sync.RWMutex.RLock", "sync.RWMutex.RUnlock", "io.ReadAll", "bufio.NewReader", "bufio.NewWriter",
+		"error.Error", "fmt.Stringer.String":
+		return true
+	}
+	return false
 }
 
 func (fcx *frameChecker) summary(key string) *frameSummary {
@@ -720,9 +751,31 @@ func (fcx *frameChecker) calleeMods(key string, seen map[string]bool, depth int)
 	}
 	fi := fcx.w.funcs[key]
 	if fi == nil {
-		// interface methods / stdlib: assumed not to write through arguments
-		// unless listed above (stated assumption)
-		return map[int]bool{}
+		// method of a repository interface: any implementer may be the callee
+		// (closed world)
+		if impls := fcx.implMethods(key); len(impls) > 0 {
+			if seen[key] || depth > 40 {
+				return map[int]bool{}
+			}
+			seen[key] = true
+			r := map[int]bool{}
+			for _, ik := range impls {
+				for i := range fcx.calleeMods(ik, seen, depth+1) {
+					r[i] = true
+				}
+			}
+			return r
+		}
+		// callees outside the repository: pure by package / by name, else
+		// conservatively assumed to write through every reference argument
+		if pureForeign(key) {
+			return map[int]bool{}
+		}
+		r := map[int]bool{}
+		for i := -1; i < 8; i++ {
+			r[i] = true
+		}
+		return r
 	}
 	if seen[key] || depth > 40 {
 		return map[int]bool{}
@@ -742,6 +795,38 @@ func (fcx *frameChecker) calleeMods(key string, seen map[string]bool, depth int)
 		}
 	}
 	return r
+}
+
+// implMethods: for the key "pkg.Iface.Method" of a repository interface, the
+// keys of the concrete methods that implement it.
+func (fcx *frameChecker) implMethods(key string) []string {
+	if fcx.implCache == nil {
+		fcx.implCache = map[string][]string{}
+	}
+	if r, ok := fcx.implCache[key]; ok {
+		return r
+	}
+	var out []string
+	i := strings.LastIndex(key, ".")
+	if i > 0 {
+		if t := fcx.w.lookupType(key[:i]); t != nil {
+			if iface, ok := t.Underlying().(*types.Interface); ok && fcx.w.inRepo(t.(*types.Named).Obj().Pkg()) {
+				name := key[i+1:]
+				for _, T := range fcx.w.implementers(iface, typeKey(t)) {
+					n, ok := derefNamed(T)
+					if !ok {
+						continue
+					}
+					obj, _, _ := types.LookupFieldOrMethod(T, true, n.Obj().Pkg(), name)
+					if m, ok := obj.(*types.Func); ok {
+						out = append(out, funcObjKey(m))
+					}
+				}
+			}
+		}
+	}
+	fcx.implCache[key] = out
+	return out
 }
 
 // frameObligations: one obligation per entry point.
@@ -798,6 +883,10 @@ func (w *World) checkFrames(prop string) []frameResult {
 								}
 								if w.funcs[ck] != nil {
 									visit(ck, d+1)
+								} else {
+									for _, ik := range fcx.implMethods(ck) {
+										visit(ik, d+1)
+									}
 								}
 							}
 						}
